@@ -46,7 +46,7 @@ Theorem C05_code_schemas_total : forall sid prior bs, safe_ty 8 env0 (TStruct si
 Proof. exact RoundTripExamples.env0_total. Qed.
 Theorem C05_code_schemas_safe_types :
   filter (fun sid => safe_ty 8 env0 (TStruct sid)) (seq 0 (length env0))
-  = [0; 1; 2; 3; 4; 5; 6; 8; 9; 10; 11; 12; 13; 14; 15; 17; 20; 21; 22; 23; 27]%nat.
+  = [0; 1; 2; 3; 4; 5; 6; 8; 9; 10; 11; 12; 13; 14; 15; 17; 20; 21; 22; 23; 29]%nat.
 Proof. exact RoundTripExamples.env0_safe_types. Qed.
 
 (* proved: the scalar layer of the decoder never panics or over-allocates, for all bytes *)
